@@ -144,12 +144,13 @@ def WsEdit.apply : WsEdit → Ws → Ws
   | .atom k a, w => { w with atoms := w.atoms.set k a }
 
 inductive TMsgEdit where
-  | append (m : TMsg) | pop | setContent (i : Nat) (c : Bytes)
+  | append (m : TMsg) | pop | setContent (i : Nat) (c : Bytes) | setFc (i : Nat) (b : Bool)
 
 def TMsgEdit.apply : TMsgEdit → List TMsg → List TMsg
   | .append m, l => l ++ [m]
   | .pop, l => l.dropLast
   | .setContent i c, l => l.modify i fun m => { m with content := c }
+  | .setFc i b, l => l.modify i fun m => { m with fromClient := b }
 
 inductive DnsEdit where
   | atom (k : Nat) (a : A)             -- f.request.id = …, f.response.response_code = …
